@@ -219,6 +219,40 @@ def run(run):
             d["ssa"] = [list(map(int, p)) for p in ssa]
             cases.append({"net": net.tla(), "obj": obj, "k": kobj[obj], "outer": bool(outer), "ch": [[p, l, r] for p, (l, r) in ch.items()]})
             descs.append(d)
+    # the finder reached by its REGISTERED NAMES: optimize='optimal' / 'dp' / 'dynamic-programming' (outer-product-free) and
+    # 'optimal-outer' (all trees), through the path-returning and the tree-returning entry points, and the exported
+    # optimizer objects called directly / via .search (objective: the default, flops)
+    import cotengra as ct
+    from cotengra.pathfinders.path_basic import linear_to_ssa as _l2s
+    NAMES = [("optimal", False), ("dp", False), ("dynamic-programming", False), ("optimal-outer", True)]
+    for _ in range(10 if quick else 100):
+        net = gen_net(rng, rng.choice([3, 4, 4, 5]), star=rng.random() < 0.5)
+        for name, outer in (NAMES if not quick else [NAMES[rng.randrange(3)], NAMES[3]]):
+            for entry in ("array_contract_path", "array_contract_tree", "object()", "object.search"):
+                d = {"net": net.to_json(), "minimize": "flops", "outer": outer, "cost_cap": "default", "entry": f"optimize='{name}' via {entry}"}
+                run.count()
+                run.nontrivial((net.eq(), str(net.dims), name, entry))
+                try:
+                    with core.watchdog(120):
+                        if entry == "array_contract_path":
+                            ssa = _l2s(ct.array_contract_path(net.c_inputs(), net.c_output(), size_dict=net.c_sizes(), optimize=name,
+                                                              cache=rng.random() < 0.5), net.N)
+                        elif entry == "array_contract_tree":
+                            ssa = ct.array_contract_tree(net.c_inputs(), net.c_output(), size_dict=net.c_sizes(), optimize=name).get_ssa_path()
+                        else:
+                            obj_ = ct.optimal_outer_optimize if outer else ct.optimal_optimize
+                            d["entry"] = f"ct.{'optimal_outer_optimize' if outer else 'optimal_optimize'} {entry}"
+                            if entry == "object()":
+                                ssa = _l2s(obj_(net.c_inputs(), net.c_output(), net.c_sizes()), net.N)
+                            else:
+                                ssa = obj_.search(net.c_inputs(), net.c_output(), net.c_sizes()).get_ssa_path()
+                    ch = nets.ssa_to_children([tuple(p) for p in ssa], net.N)
+                except Exception as e:
+                    run.violation(f"{d['entry']} raised {core.exc_text(e)} eq={net.eq()}", d, tags={"raised", "preset"})
+                    continue
+                d["ssa"] = [list(map(int, p)) for p in ssa]
+                cases.append({"net": net.tla(), "obj": "flops", "k": 0, "outer": outer, "ch": [[p, l, r] for p, (l, r) in ch.items()]})
+                descs.append(d)
     # big cases (n >= 6) are slow to judge: smaller chunks
     verdicts, results = tla.judge_cases(f"c09_{run.tier}", "OptimalJudge", cases, chunk=40, maxpar=14, timeout=3000)
     for res in results:
